@@ -85,7 +85,7 @@ Lemma decimal_text_lemma :
     /\ forallb is_digit (dec_of_Z z) = true /\ dval (dec_of_Z z) = Z.to_N z.
 Proof.
   intros z Hz H. split; [now apply py_int_dec_of_Z|].
-  unfold dec_of_Z. destruct z as [|p|p]; try lia;
-    destruct (dec_of_N_spec (Z.to_N 0)) as (A0 & _ & _ & B0);
-    destruct (dec_of_N_spec (Z.to_N (Z.pos p))) as (A1 & _ & _ & B1); auto.
+  unfold dec_of_Z. destruct z as [|p|p]; try lia.
+  - destruct (dec_of_N_spec (Z.to_N 0)) as (A0 & _ & _ & B0). auto.
+  - destruct (dec_of_N_spec (Z.to_N (Z.pos p))) as (A1 & _ & _ & B1). auto.
 Qed.
